@@ -17,7 +17,7 @@ Choices(addr) == LET p == Param(addr) IN
     [] p.kind = "i" -> { [ty |-> "i", v |-> v] : v \in IntVals(p) }
     [] p.kind = "f" -> { [ty |-> "f", v |-> v] : v \in (IF p.lo = 0 - NoBound THEN {0 - 4000, 0, 3, p.hi, p.hi + 1} ELSE {p.lo - 1, p.lo, p.lo + 1, 1, p.hi, p.hi + 3}) }
     [] p.kind = "T" -> { [ty |-> "T", v |-> 0], [ty |-> "F", v |-> 0] }
-    [] p.kind = "o" -> { [ty |-> "S", v |-> OptionNames[i]] : i \in 1..3 } \cup { [ty |-> "i", v |-> 0], [ty |-> "i", v |-> 2], [ty |-> "c", v |-> 1] }
+    [] p.kind = "o" -> { [ty |-> "S", v |-> OptionNames[i]] : i \in 1..4 } \cup { [ty |-> "i", v |-> 0], [ty |-> "i", v |-> 2], [ty |-> "c", v |-> 1] }
     [] p.kind = "s" -> { [ty |-> "s", v |-> v] : v \in { <<>>, <<97, 98, 99>>, <<104, 101, 108, 108, 111, 32, 119, 111, 114, 108, 100>>, <<113, 34, 37, 10, 39>> } }
 \* messages are generated for half of the sub-tree array elements (one per container, both indices occur); the model knows all of them
 GenAddresses == SelectSeq(Addresses, LAMBDA a : a \notin {"/sub/sa0", "/subs0/sa0", "/subs1/sa1", "/psub/sa1", "/al1", "/al2", "/al3", "/al4", "/al6", "/al7", "/ab1", "/ab2", "/ab3", "/ab4", "/ab6"})
